@@ -12,10 +12,10 @@ Definition gen_instrument (is_async : bool) (self : pv) : Res (list pv) :=
 Definition gen_refusal (is_async : bool) : list pv :=
   if is_async then InstrumentedAsyncServer_admin_connect_refusal else InstrumentedServer_admin_connect_refusal.
 
-Definition gen_decision is_async cfg a call iscoro : Res pv :=
-  gen_connect is_async (case_oracle call iscoro) (mk_admin_self cfg) (PStr (s2l "sid")) (PDict []) a.
-Definition tv_gen_ok is_async cfg a call iscoro (observed : Res pv) : bool :=
-  res_eqb pv_eqb (gen_decision is_async cfg a call iscoro) observed.
+Definition gen_decision is_async cfg a call iscoro awaited : Res pv :=
+  gen_connect is_async (case_oracle call iscoro awaited) (mk_admin_self cfg) (PStr (s2l "sid")) (PDict []) a.
+Definition tv_gen_ok is_async cfg a call iscoro awaited (observed : Res pv) : bool :=
+  res_eqb pv_eqb (gen_decision is_async cfg a call iscoro awaited) observed.
 
 Definition iv_gen_ok (is_async : bool) (cfg : acfg) (events : list str) (patched : bool) : bool :=
   match gen_instrument is_async (mk_admin_self cfg) with
@@ -28,13 +28,14 @@ Definition iv_gen_ok (is_async : bool) (cfg : acfg) (events : list str) (patched
    bit 2 = the real class violates the hand-written specification *)
 Definition c18_eval (k : c18case) : nat :=
   match k with
-  | TV is_async cfg a call iscoro observed =>
-      bits (tv_gen_ok is_async cfg a call iscoro observed) (tv_spec_ok is_async cfg a call iscoro observed)
+  | TV is_async cfg a call iscoro awaited observed =>
+      bits (tv_gen_ok is_async cfg a call iscoro awaited observed)
+           (tv_spec_ok is_async cfg a call iscoro awaited observed)
   | IV is_async cfg events patched =>
       bits (iv_gen_ok is_async cfg events patched) (iv_spec_ok cfg events patched)
-  | CN is_async always cfg data call iscoro answers member =>
+  | CN is_async always cfg data call iscoro awaited answers member =>
       bits (cn_model_ok (error_args (gen_refusal is_async)) always
-                        (gen_decision is_async cfg (effective_auth data) call iscoro) answers member)
-           (cn_prop_ok always (cn_decision is_async cfg data call iscoro) answers member)
+                        (gen_decision is_async cfg (effective_auth data) call iscoro awaited) answers member)
+           (cn_prop_ok always (cn_decision is_async cfg data call iscoro awaited) answers member)
   | _ => c18_eval_spec k
   end.
